@@ -30,11 +30,28 @@ type Server struct {
 	waits     map[uint64]map[uint64]bool // wait-for edges for deadlock detection
 	// TiKVReads enables the min_commit_ts bypass of reads (TiKV semantics).
 	TiKVReads bool
+	// FollowerReads: a store that holds a non-leader peer serves reads flagged replica-read or stale-read (as TiKV
+	// does); off, every request must reach the leader (as in the repository's mock). FollowerServed counts them.
+	FollowerReads  bool
+	FollowerServed int
+	// NotReadyEvery > 0: every n-th stale read finds the store's safe timestamp behind the read (DataIsNotReady)
+	NotReadyEvery int
+	StaleSeen     int
+	NotReady      int
 }
 
 // NewServer creates a server over a fresh store.
 func NewServer(cluster *mocktikv.Cluster) *Server {
 	return &Server{Store: New(), Cluster: cluster, waits: map[uint64]map[uint64]bool{}, TiKVReads: true}
+}
+
+// followerServable: the read commands a TiKV follower serves.
+func followerServable(t tikvrpc.CmdType) bool {
+	switch t {
+	case tikvrpc.CmdGet, tikvrpc.CmdBatchGet, tikvrpc.CmdScan, tikvrpc.CmdBufferBatchGet:
+		return true
+	}
+	return false
 }
 
 func lockInfo(key []byte, l *Lock) *kvrpcpb.LockInfo {
@@ -150,8 +167,28 @@ func (sv *Server) SendRequest(_ context.Context, addr string, req *tikvrpc.Reque
 	}
 	sess := mocktikv.VerifNewSession(sv.Cluster, storeID)
 	if req.Type != tikvrpc.CmdBroadcastTxnStatus && req.Type != tikvrpc.CmdEmpty {
-		if re := sess.CheckRequestContext(&req.Context); re != nil {
-			return tikvrpc.GenRegionErrorResp(req, re)
+		if req.StaleRead && followerServable(req.Type) && sv.NotReadyEvery > 0 {
+			sv.StaleSeen++
+			if sv.StaleSeen%sv.NotReadyEvery == 1%sv.NotReadyEvery {
+				sv.NotReady++
+				return tikvrpc.GenRegionErrorResp(req, &errorpb.Error{Message: "data is not ready", DataIsNotReady: &errorpb.DataIsNotReady{RegionId: req.Context.GetRegionId(), SafeTs: 1}})
+			}
+		}
+		served := false
+		if sv.FollowerReads && (req.ReplicaRead || req.StaleRead) && followerServable(req.Type) {
+			// a follower serves a replica read (read index) or a stale read; both see the same single copy of the data
+			if re, ok := sess.VerifCheckFollowerRead(&req.Context); ok {
+				if re != nil {
+					return tikvrpc.GenRegionErrorResp(req, re)
+				}
+				served = true
+				sv.FollowerServed++
+			}
+		}
+		if !served {
+			if re := sess.CheckRequestContext(&req.Context); re != nil {
+				return tikvrpc.GenRegionErrorResp(req, re)
+			}
 		}
 	}
 	start, end := sess.VerifRegionRange()
